@@ -17,6 +17,10 @@ pub struct Gen<'a> {
     /// Set by the driver when it wants the case to leave a human-readable description behind.
     pub want_desc: bool,
     pub desc: Option<Value>,
+    /// Blocks generated earlier in the current picture, (first index, stream form, events): the
+    /// picture generators sometimes repeat one of them verbatim, so that identical blocks occur
+    /// more than once in a picture with other blocks in between. Part of the case, not of the tape.
+    pub block_pool: Vec<(usize, bool, Vec<crate::syntax::Event>)>,
 }
 
 impl<'a> Gen<'a> {
@@ -26,6 +30,7 @@ impl<'a> Gen<'a> {
             pos: 0,
             want_desc: false,
             desc: None,
+            block_pool: Vec::new(),
         }
     }
 
